@@ -182,6 +182,9 @@ func zooEntries(s string) []zooEntry {
 		{"z_valuenil", pongo2.AsValue(nil), "*pongo2.Value(nil)"},
 		{"z_anyarr", [2]any{[]int{1}, 2}, "array of interfaces holding an uncomparable value"},
 		{"z_anyholder", ZAnyHolder{A: []int{1}, B: s}, "comparable struct type holding an uncomparable dynamic value"},
+		{"z_anymap", map[any]int{1: 1, "a": 2, 2.5: 3}, "map[any]int"},
+		{"z_nilvalueptr", (*pongo2.Value)(nil), "nil *pongo2.Value"},
+		{"z_slicekeyarr", [1]any{[]int{1}}, "comparable array type holding an unhashable value"},
 		{"z_chan", make(chan int), "channel"},
 		{"z_complex", complex(1, 2), "complex"},
 		{"z_rune", 'x', "rune"},
@@ -204,6 +207,7 @@ func zooEntries(s string) []zooEntry {
 		{"f_retfunc", func() func() string { return func() string { return s } }, "func() func() string"},
 		{"f_safe", func() *pongo2.Value { return pongo2.AsSafeValue("<safe>") }, "func() safe *Value"},
 		{"f_retnilvalue", func() *pongo2.Value { return pongo2.AsValue(nil) }, "func() *Value(nil)"},
+		{"f_retnilvalueptr", func() *pongo2.Value { return nil }, "func() *Value returning a nil pointer"},
 		{"f_noresult", func() {}, "func() without result (rejected shape)"},
 		{"f_three", func() (int, int, int) { return 1, 2, 3 }, "func() three results (rejected shape)"},
 		{"f_badsecond", func() (int, string) { return 1, "x" }, "func() (int,string) (rejected shape)"},
